@@ -275,6 +275,25 @@ func (m *C10Monitor) AfterTx(c *Chain, ctx sdk.Context, tx sdk.Tx, ok bool) {
 			}
 		}
 	}
+	// "a jailed reporter cannot report until its jail time has passed": while a reporter stays jailed no transaction
+	// moves its release time to an earlier moment, and none releases it before that moment
+	for k, pre := range m.reporters {
+		if !pre.Jailed {
+			continue
+		}
+		post, err := a.ReporterKeeper.Reporters.Get(ctx, []byte(k))
+		if err != nil {
+			continue
+		}
+		m.st.Count("c10.jail-kept.evals")
+		if post.Jailed && post.JailedUntil.Before(pre.JailedUntil) {
+			m.st.Bucket("c10|jail-moved-earlier")
+			c.Violate("C10", "c10", "release-time-of-a-jailed-reporter-moved-earlier", map[string]interface{}{"reporter": sdk.AccAddress(k).String(), "was": pre.JailedUntil.String(), "now": post.JailedUntil.String(), "tx": describe(tx.GetMsgs())})
+		}
+		if !post.Jailed && now.Before(pre.JailedUntil) {
+			c.Violate("C10", "c10", "reporter-released-before-its-jail-time-passed", map[string]interface{}{"reporter": sdk.AccAddress(k).String(), "until": pre.JailedUntil.String(), "now": now.String(), "tx": describe(tx.GetMsgs())})
+		}
+	}
 	// structural: every selector names an existing reporter
 	_ = a.ReporterKeeper.Selectors.Walk(ctx, nil, func(k []byte, s reportertypes.Selection) (bool, error) {
 		if has, _ := a.ReporterKeeper.Reporters.Has(ctx, s.Reporter); !has {
